@@ -284,6 +284,34 @@ CELL_STRS = ['good', 'mua', 'x,y', 'a\tb', 'he said "hi"', '"', '""', ',', ' lea
              'N/A', 'None', 'True', '1e+', '- 1', 'nan1', '1.2.3', '\t', ' ']
 
 
+# stage 6: free-text cells -- every character a label typed by a user / pasted from a document can hold, except
+# NUL and CR (outside the reading): the line boundaries of str.splitlines (LF VT FF FS GS RS NEL LS PS), other
+# control characters, non-ASCII text (Latin-1, CJK, astral), Unicode spaces, BOM
+LINE_BOUNDS = ['\n', '\x0b', '\x0c', '\x1c', '\x1d', '\x1e', '\x85', '\u2028', '\u2029']
+ODD_CHARS = LINE_BOUNDS + ['\x01', '\x08', '\x1a', '\x1b', '\x1f', '\x7f', '\xa0', '\u3000', '\ufeff', '\u00e9', '\u03bc',
+                           '\u4e2d', '\U0001f600', '\u0661', '\u200b']
+FREE_STRS = (['drifts\nafter 20 min', 'line1\nline2\nline3', '\ntop', 'end\n', 'a\n\nb', 'x\n,y', 'x\n\ty', 'say "hi"\nthen, go',
+              '\n', 'caf\u00e9', '\u03bcV', '\u4e2d\u6587 #2', 'ok \U0001f600', 'a\xa0b', '\ufeffbom', 'a\u200bb']
+             + ['a%sb' % ch for ch in LINE_BOUNDS[1:]] + ['%sz' % ch for ch in LINE_BOUNDS[1:]]
+             + ['z%s' % ch for ch in LINE_BOUNDS[1:]] + ['x\x01y', 'esc\x1b[0m', 'del\x7f', 'sub\x1az', 'u\x1fs'])
+_NUM_ALPHA_CH = set('0123456789+-_.einfatyEINFATY')
+
+
+def _cell_str_ok(s):
+    """A string cell of the reading that the byte model decides like CPython: not empty, no NUL / CR, no lone
+    surrogate, rejected by int() and float(), and either plain ASCII without FS GS RS US (which CPython strips as
+    white space) or holding a printable ASCII character outside the alphabet of numeric literals."""
+    if not s or '\x00' in s or '\r' in s or _numeric(s):
+        return False
+    try:
+        s.encode('utf-8')
+    except UnicodeEncodeError:
+        return False
+    if all(ord(ch) < 28 or 32 <= ord(ch) < 128 for ch in s):
+        return True
+    return any(33 <= ord(ch) <= 126 and ch not in _NUM_ALPHA_CH for ch in s)
+
+
 def _numeric(s):
     try:
         int(s)
@@ -312,11 +340,16 @@ def _rand_cell(rng, simple=False):
             return ['float', rng.choice(['nan', ['inf', 0], ['inf', 1], ['f', 1, 0, 0], ['f', 1, 1, -20], ['f', 0, 1, -20],
                                          ftok(1e20), ftok(0.99995), ftok(0.00005), ftok(-0.00005), ftok(2.5), ftok(1e-30)])]
         return ['float', _rand_float_tok(rng)]
-    if rng.random() < 0.7:
+    q_ = rng.random()
+    if q_ < 0.55:
         return ['str', rng.choice(CELL_STRS)]
+    if q_ < 0.7:
+        return ['str', rng.choice(FREE_STRS)]
+    odd = rng.random() < 0.4
     for _ in range(20):
-        s = ''.join(rng.choice('abgxyz 019_-+.,"\'\teEnN') for _ in range(rng.randint(1, 7)))
-        if not _numeric(s):
+        s = ''.join(rng.choice(ODD_CHARS) if odd and rng.random() < 0.3 else rng.choice('abgxyz 019_-+.,"\'\teEnN')
+                    for _ in range(rng.randint(1, 7)))
+        if _cell_str_ok(s):
             return ['str', s]
     return ['str', 'good']
 
@@ -397,6 +430,18 @@ def generate(tier, rng):
         + [[['s', 'a'], ['none']]], npkeys=True))
     cases.append({'kind': 'simple', 'inp': {'delim': 'tab', 'field': 'group', 'nptypes': False, 'data': [
         [2 ** 64, ['str', 'good']], [-2 ** 63 - 1, ['int', 2 ** 64]], [2 ** 128 + 1, ['float', ftok(0.5)]], [5, ['int', -2 ** 100]]]}})
+    # free-text cells (stage 6): a line feed inside a cell (csv quotes it; the reader must keep it), the other line
+    # boundaries of str.splitlines, control characters, non-ASCII text -- both table kinds, both delimiters
+    for delim in ('tab', 'comma'):
+        cases.append({'kind': 'simple', 'inp': {'delim': delim, 'field': 'group', 'nptypes': False, 'data': [
+            [0, ['str', 'good']], [7, ['str', 'drifts\nafter 20 min']], [12, ['str', 'mua']]]}})
+        cases.append({'kind': 'simple', 'inp': {'delim': delim, 'field': 'KSLabel', 'nptypes': False, 'data': [
+            [j, ['str', 'a%sb' % ch]] for j, ch in enumerate(LINE_BOUNDS[1:] + ['\x01', '\x7f', '\u00e9', '\U0001f600'])]}})
+        cases.append({'kind': 'tsv', 'inp': {
+            'delim': delim, 'first': 'cluster_id', 'excl': [], 'n': 4, 'default_n': True, 'nptypes': False,
+            'rows': [[['cluster_id', ['int', 3]], ['group', ['str', 'line1\nline2\nline3']], ['amp', ['float', ftok(1.5)]]],
+                     [['cluster_id', ['int', 4]], ['group', ['str', 'x\n,y']], ['KSLabel', ['str', 'end\n']]],
+                     [['cluster_id', ['int', 5]], ['group', ['str', 'a\u2028b']], ['KSLabel', ['str', 'a\x0cb\x1dc\x85']]]]}})
     cases.append({'kind': 'python', 'inp': {'items': [['a', ['str', 'he said "hi"']]]}})   # fixed: quoting
     cases.append({'kind': 'python', 'inp': {'items': [['a', ['str', 'back\\slash']]]}})
     cases.append({'kind': 'python', 'inp': {'items': [['a', ['str', 'new\nline']]]}})
@@ -1163,7 +1208,7 @@ def shrink(case):
                         yield {'kind': k, 'inp': dict(i, rows=rows[:d] + [r[:j] + [[kk, simpler]] + r[j + 1:]] + rows[d + 1:])}
                 if c[0] == 'str' and len(c[1]) > 1:
                     for s in (c[1][:-1], c[1][1:]):
-                        if s and not _numeric(s):
+                        if _cell_str_ok(s):
                             yield {'kind': k, 'inp': dict(i, rows=rows[:d] + [r[:j] + [[kk, ['str', s]]] + r[j + 1:]] + rows[d + 1:])}
     elif k == 'simple':
         data = i['data']
@@ -1179,6 +1224,10 @@ def shrink(case):
             for simpler in (['int', 1], ['str', 'x'], ['float', ['f', 0, 1, -1]]):
                 if c != simpler and c[0] == simpler[0]:
                     yield {'kind': k, 'inp': dict(i, data=data[:d] + [[key, simpler]] + data[d + 1:])}
+            if c[0] == 'str' and len(c[1]) > 1:
+                for s in (c[1][:-1], c[1][1:]):
+                    if _cell_str_ok(s):
+                        yield {'kind': k, 'inp': dict(i, data=data[:d] + [[key, ['str', s]]] + data[d + 1:])}
     elif k == 'number':
         s = i['s']
         for d in range(len(s)):
